@@ -85,7 +85,7 @@ def symdel(seqs: OneOf(Seq(Str, "list"), Seq(Str, "ndarray"), SeriesT(Str, "int"
            custom_distance: OneOf(NoneType, Const("hamming"), FnT(Str, Str, returns=RealT(lo=0), symmetric=True, zero_diag=True)),
            max_custom_distance: OneOf(Const(float("inf")), RealT(lo=0)),
            output_type: OneOf(Const("triplets"), Const("coo_matrix")),
-           seqs2: OneOf(NoneType, Seq(Str, "list"), SeriesT(Str, "int")), progress: Const(False)):
+           seqs2: OneOf(NoneType, Seq(Str, "list"), SeriesT(Str, "int"), SameAs("seqs")), progress: Const(False)):
     raises("AssertionError", when=not valid_search_args(seqs, max_edits, max_returns, n_cpu, custom_distance,
                                                          max_custom_distance, output_type, seqs2))
     # --- one collection: ordered pairs of distinct positions ---------------------------------------------
@@ -164,7 +164,7 @@ def nearest_neighbor(seqs: Seq(Str, "list"), max_edits: Int, max_returns: NoneTy
                      custom_distance: OneOf(NoneType, Const("hamming"), FnT(Str, Str, returns=RealT(lo=0), symmetric=True, zero_diag=True)),
                      max_custom_distance: OneOf(Const(float("inf")), RealT(lo=0)),
                      output_type: OneOf(Const("triplets"), Const("coo_matrix")),
-                     seqs2: OneOf(NoneType, Seq(Str, "list"))):
+                     seqs2: OneOf(NoneType, Seq(Str, "list"), SameAs("seqs"))):
     # behaves exactly as symdel on the same eight arguments (each bound to the same-named parameter)
     raises("AssertionError", when=not valid_search_args(seqs, max_edits, max_returns, n_cpu, custom_distance,
                                                          max_custom_distance, output_type, seqs2))
